@@ -8,12 +8,17 @@ from vlib import Case, hx, unhx
 PROP = "C13"
 PROOF_FILES = ["Properties/C13.v"]
 RULE = ("byte strings through ComputeCRC: all strings of length 0..2 (65 793, complete); single-bit strings (one bit set, "
-        "rest zero) and all-zero strings; random strings up to 4 KiB; known-answer vectors; residue calls; a case is "
+        "rest zero) and all-zero strings; one random string of every length 0..1024; random strings up to 4 KiB and a few up to 64 KiB; known-answer vectors; residue calls; the real emitters (FilterPMTPacketsToPids on generated PMTs of 1..27 streams in 1..3 packets, "
+        "SCTE35.UpdateData on generated splice_null / time_signal / splice_insert messages with 0..3 segmentation descriptors) whose output "
+        "sections are put through the receivers' CRC check; a case is "
         "non-trivial when it is a distinct request line (every byte string is inside the property's domain)")
 EXHAUSTIVE = True
-EXHAUSTIVE_NOTE = ("lengths 0..2 are enumerated completely on every run. Single-bit strings: quick = every bit position for "
+EXHAUSTIVE_NOTE = ("lengths 0..2 are enumerated completely on every run. Single-bit strings: the op crc.singles L compares ComputeCRC on ALL 8L "
+                   "single-bit strings of L bytes with the linear-time table Crc32.singles_fast (theorem C13_single_bit_all): thorough = every "
+                   "L in 0..1024, i.e. every single-bit string up to 1024 bytes (4 198 400 strings); quick = L in 0..64, 128, 183, 184, 188, 256, "
+                   "512, 1024 (28 752 strings). Additionally, string by string through the model of the code: quick = every bit position for "
                    "lengths 1..24, plus 64 positions per length class up to 1024; thorough = every bit position of every "
-                   "length 1..128 and of the lengths 188, 256, 512, 1021, 1024 (so every distance-from-the-end 1..8192 occurs), "
+                   "length 1..64 and of the lengths 188 and 1024 (so every distance-from-the-end 1..8192 occurs), "
                    "first/last/8 random positions for every other length up to 1024, and the all-zero string of every length "
                    "0..1024. The unbounded domain is covered by theorem C13_compute_crc_is_mpeg2.")
 ASSUMPTIONS = ["Go uint32 shifts/xor as written out in Model/Crc.v; encoding/binary.BigEndian.PutUint32 is big-endian"]
@@ -61,6 +66,125 @@ def _gen_emitted(rng, tier):
     return out
 
 
+TRUSTED_EXTRA = []
+AUDIT = {}
+
+
+def coqchk_audit():
+    """thorough tier (DESIGN section 4): coqchk -silent -o on this property's compiled theorems; the context summary goes
+    into the evidence; anything but 'Axioms: <none>' becomes a failing case of kind coqchk-audit"""
+    rc, out = vlib.sh("timeout 1500 coqchk -silent -o -Q theories Gots Gots.Properties.C13", cwd=vlib.COQ, timeout=1600)
+    i = out.find("CONTEXT SUMMARY")
+    summary = " ".join(out[i:].split()) if i >= 0 else out[-500:]
+    ok = (rc == 0 and "* Axioms: <none>" in out and "type-in-type: <none>" in out
+          and "unsafe (co)fixpoints: <none>" in out and "positivity is assumed: <none>" in out)
+    del TRUSTED_EXTRA[:]
+    TRUSTED_EXTRA.append("coqchk -silent -o Gots.Properties.C13 (this run): " + summary)
+    AUDIT["ok"], AUDIT["text"] = ok, summary
+    return ok
+
+
+def be32(x):
+    return x.to_bytes(4, "big")
+
+
+def pmt_packets(rng, pid, streams, prog_info, pointer=0, version=1):
+    """a PMT section (ISO 13818-1 2.4.4.8) with a correct CRC, packetised into 188-byte packets of PID pid"""
+    pcr_pid = streams[0][1] if streams else 0x1fff
+    body = bytes([0, 1, 0xC1 | (version << 1), 0, 0, 0xE0 | (pcr_pid >> 8), pcr_pid & 0xff,
+                  0xF0 | (len(prog_info) >> 8), len(prog_info) & 0xff]) + prog_info
+    for (st, epid, info) in streams:
+        body += bytes([st, 0xE0 | (epid >> 8), epid & 0xff, 0xF0 | (len(info) >> 8), len(info) & 0xff]) + info
+    sl = len(body) + 4
+    sec = bytes([0x02, 0xB0 | (sl >> 8), sl & 0xff]) + body
+    sec += be32(table_crc(sec))
+    payload = bytes([pointer]) + b"\xff" * pointer + sec
+    pkts = b""
+    cc = 0
+    first = True
+    while payload or first:
+        chunk, payload = payload[:184], payload[184:]
+        chunk = chunk + b"\xff" * (184 - len(chunk))
+        pkts += bytes([0x47, (0x40 if first else 0) | (pid >> 8), pid & 0xff, 0x10 | cc]) + chunk
+        cc = (cc + 1) & 15
+        first = False
+    return pkts
+
+
+def desc_loop(rng, n):
+    """n well-formed descriptors (tag, length, body)"""
+    out = b""
+    for _ in range(n):
+        body = bytes(rng.randrange(256) for _ in range(rng.choice((0, 1, 3, 4, 4, 8))))
+        out += bytes([rng.choice((0x0a, 0x05, 0x52, 0x0e, 0x86, 0xcc, rng.randrange(256))), len(body)]) + body
+    return out
+
+
+def emitter_cases(rng, tier):
+    """the real emitters: FilterPMTPacketsToPids and SCTE35.UpdateData; what they return is judged by residue_check"""
+    out = []
+    n = 150 if tier == "quick" else 4000
+    for i in range(n):
+        ns = rng.randrange(1, 9 if i % 5 else 28)
+        pids = rng.sample(range(0x20, 0x1ffe), ns)
+        streams = []
+        for epid in pids:
+            info = desc_loop(rng, rng.choice((0, 0, 1, 1, 2, 4)))
+            streams.append((rng.choice((0x02, 0x1b, 0x24, 0x0f, 0x81, 0x86, 0x06, rng.randrange(256))), epid, info))
+        prog_info = desc_loop(rng, rng.choice((0, 0, 1, 2)))
+        pmt_pid = rng.randrange(0x20, 0x1ffe)
+        pk = pmt_packets(rng, pmt_pid, streams, prog_info, pointer=rng.choice((0, 0, 0, 1, 5)), version=rng.randrange(32))
+        keep = rng.sample(pids, rng.randrange(1, ns + 1))
+        if i % 7 == 0:
+            keep.append(0x1ffe)   # a PID that is not in the PMT: packets and an error
+        out.append(Case("crc.emit.pmt %s [ %s ]" % (hx(pk), " ".join(str(p) for p in keep)), kind="emit-filtered-pmt",
+                        theorem="C13_emitted_section_residue_ok"))
+    for i in range(n):
+        cmd = i % 3
+        descs = []
+        for _ in range(rng.choice((0, 0, 1, 2, 3))):
+            descs.append("[ %d %d %d %d %s %d ]" % (rng.randrange(1 << 32), rng.choice((0x10, 0x11, 0x30, 0x31, 0x34, 0x35, 0x36, 0x40, 0x50)),
+                                                  rng.randrange(2), rng.randrange(1 << 33),
+                                                  hx(bytes(rng.randrange(256) for _ in range(rng.choice((0, 0, 8, 12))))),
+                                                  rng.choice((0, 1, 3, 8, 9, 12))))
+        out.append(Case("crc.emit.scte %d %d %d %d [ %s ]" % (cmd, rng.randrange(1 << 12), rng.randrange(1 << 33), rng.choice((0, 0, 1, 4)),
+                                                          " ".join(descs)), kind="emit-splice-info-section",
+                        theorem="C13_emitted_section_residue_ok"))
+    return out
+
+
+def residue_check(c, real):
+    """the receivers' check (register zero over the whole section incl. CRC_32) on what the real emitter returned"""
+    v = vlib.parse_val(real)
+    if c.kind == "emit-splice-info-section":
+        if not isinstance(v, (bytes, bytearray)) or len(v) < 7:
+            return "UpdateData() returned %s" % real[:200]
+        sl = ((v[1] & 0x0f) << 8) | v[2]
+        if 3 + sl != len(v):
+            return "UpdateData(): section_length %d does not match the %d bytes returned" % (sl, len(v))
+        if table_crc(v) != 0:
+            return "encoded splice_info_section fails the CRC check: residue %08x, CRC field %s, required %08x" % (
+                table_crc(v), v[-4:].hex(), table_crc(v[:-4]))
+        return ""
+    if not isinstance(v, list) or len(v) != 2:
+        return "FilterPMTPacketsToPids: unexpected reply %s" % real[:200]
+    cat, code = v
+    if len(cat) == 0:
+        return "" if code != 0 else "FilterPMTPacketsToPids returned no packets and no error"
+    pay = b"".join(cat[i + 4:i + 188] for i in range(0, len(cat), 188))
+    sec = pay[1 + pay[0]:]
+    if len(sec) < 3:
+        return "filtered PMT: no section in the returned packets"
+    sl = ((sec[1] & 0x0f) << 8) | sec[2]
+    if len(sec) < 3 + sl or sl < 4:
+        return "filtered PMT: section_length %d exceeds the %d bytes returned" % (sl, len(sec))
+    sec = sec[:3 + sl]
+    if table_crc(sec) != 0:
+        return "filtered PMT section fails the CRC check: residue %08x, CRC field %s, required %08x" % (
+            table_crc(sec), sec[-4:].hex(), table_crc(sec[:-4]))
+    return ""
+
+
 def gen(rng, tier):
     return _gen_own(rng, tier) + _gen_emitted(rng, tier)
 
@@ -68,6 +192,8 @@ def gen(rng, tier):
 def _gen_own(rng, tier):
     out = []
     thorough = tier == "thorough"
+    if thorough and not coqchk_audit():
+        out.append(Case("crc.audit x", kind="coqchk-audit", theorem="C13_compute_crc_is_mpeg2"))
     def crc(b, kind, th="C13_compute_crc_is_mpeg2"):
         out.append(Case("crc " + hx(b), kind=kind, theorem=th))
     # 1. lengths 0..2 complete
@@ -83,7 +209,7 @@ def _gen_own(rng, tier):
         out.append(Case("crc.spec " + hx(v), kind="known-answer", theorem="C13_compute_crc_is_mpeg2"))
     # 3. single-bit and all-zero strings
     if thorough:
-        full = set(range(1, 129)) | {188, 256, 512, 1021, 1024}
+        full = set(range(1, 65)) | {188, 1024}
         for L in range(0, 1025):
             crc(bytes(L), "all-zero")
         for L in range(1, 1025):
@@ -102,8 +228,16 @@ def _gen_own(rng, tier):
         for L in (32, 64, 128, 188, 256, 512, 1021, 1024):
             for p in sorted({0, 1, 7, 8, 8 * L - 9, 8 * L - 8, 8 * L - 1} | {rng.randrange(8 * L) for _ in range(57)}):
                 crc(single(L, p), "single-bit")
+    # 3a. ALL single-bit strings of a length in one call (model side: linear-time table proved in Proofs/CrcLinear.v)
+    for L in (range(0, 1025) if thorough else list(range(0, 65)) + [128, 183, 184, 188, 256, 512, 1024]):
+        out.append(Case("crc.singles %d" % L, kind="single-bit-all", theorem="C13_single_bit_all"))
+    # 3b. every length 0..1024 at least once with random content (section sizes), and a few long strings beyond 4 KiB
+    for L in range(0, 1025):
+        crc(bytes(rng.randrange(256) for _ in range(L)), "every-length")
+    for L in ((4097, 8192, 65537) if not thorough else (4097, 4098, 8191, 8192, 16385, 65535, 65536, 65537, 262145)):
+        crc(bytes(rng.randrange(256) for _ in range(L)), "long")
     # 4. random strings up to 4 KiB (sizes biased to section-like lengths)
-    n = 20000 if thorough else 400
+    n = 10000 if thorough else 400
     for i in range(n):
         r = rng.random()
         L = rng.randrange(3, 64) if r < 0.4 else rng.randrange(64, 1025) if r < 0.8 else rng.randrange(1025, 4097)
@@ -122,20 +256,41 @@ def _gen_own(rng, tier):
             out.append(Case("crc.residue " + hx(b), kind="residue", theorem="C13_residue_zero"))
         if i % 8 == 0 and L <= 1024:
             out.append(Case("crc.spec " + hx(b), kind="spec-direct", theorem="C13_compute_crc_is_mpeg2"))
+        if i % 8 == 4 and L <= 1024:
+            out.append(Case("crc.tab " + hx(b), kind="spec-table-direct", theorem="C13_compute_crc_is_table_driven"))
     # 5. the specification itself against the real code on the small domain (lengths 0..1 complete, sample of 2)
     out.append(Case("crc.spec x", kind="spec-direct", theorem="C13_compute_crc_is_mpeg2"))
     for a in range(256):
         out.append(Case("crc.spec " + hx(bytes([a])), kind="spec-direct", theorem="C13_compute_crc_is_mpeg2"))
+        out.append(Case("crc.tab " + hx(bytes([a])), kind="spec-table-direct", theorem="C13_compute_crc_is_table_driven"))
         out.append(Case("crc.residue " + hx(bytes([a])), kind="residue", theorem="C13_residue_zero"))
     for _ in range(20000 if thorough else 1000):
         out.append(Case("crc.spec " + hx(bytes([rng.randrange(256), rng.randrange(256)])), kind="spec-direct",
                         theorem="C13_compute_crc_is_mpeg2"))
     out.append(Case("crc.residue x", kind="residue", theorem="C13_residue_zero"))
+    out += emitter_cases(rng, tier)
     return out
 
 
 def oracle(c, real, model):
     """the property fixes the reply completely, so the real reply is also checked against the table-driven CRC"""
+    if c.kind == "coqchk-audit":
+        return "coqchk does not confirm the proofs of Properties/C13.v as axiom-free: " + AUDIT.get("text", "")
+    if c.kind == "single-bit-all":
+        L = int(c.line.split(" ")[1])
+        if L > 48:
+            return None                      # real is compared with the (proved) linear-time table of the model
+        want = "x" + "".join("%08x" % table_crc(single(L, p)) for p in range(8 * L))
+        if real != want:
+            return "ComputeCRC on the single-bit strings of %d bytes differs from the table-driven reference" % L
+        if model != want:
+            return "Crc32.singles_fast %d differs from the table-driven reference" % L
+        return ""
+    if c.kind.startswith("emit-"):
+        try:
+            return residue_check(c, real)
+        except Exception as e:
+            return "emitter reply cannot be read (%s): %s" % (e, real[:200])
     op, _, arg = c.line.partition(" ")
     try:
         data = unhx(arg.strip())
@@ -150,6 +305,14 @@ def oracle(c, real, model):
 
 
 def shrink(c):
+    if c.kind.startswith("emit-"):
+        return
+    if c.kind == "single-bit-all":
+        L = int(c.line.split(" ")[1])
+        for L2 in (1, L // 2, L - 1):
+            if 0 < L2 < L:
+                yield Case("crc.singles %d" % L2, kind=c.kind, theorem=c.theorem)
+        return
     op, _, arg = c.line.partition(" ")
     b = unhx(arg.strip())
     n = len(b)
@@ -166,15 +329,26 @@ def shrink(c):
 
 def case_of_line(line, kind):
     op = line.split(" ")[0]
+    if op == "crc.singles":
+        return Case(line, kind="single-bit-all", theorem="C13_single_bit_all")
+    if op == "crc.emit.pmt":
+        return Case(line, kind="emit-filtered-pmt", theorem="C13_emitted_section_residue_ok")
+    if op == "crc.emit.scte":
+        return Case(line, kind="emit-splice-info-section", theorem="C13_emitted_section_residue_ok")
     return Case(line, kind=kind, theorem="C13_residue_zero" if op == "crc.residue" else "C13_compute_crc_is_mpeg2")
 
 
 LEVEL_TEXT = ("Proof: Properties/C13.v states for ALL byte strings that the model of ComputeCRC (augmented-message loop, "
               "initial register 0x46af6449, 32 trailing zero steps, as written in tsutils.go) returns the big-endian bytes of "
-              "the textbook bit-serial CRC-32/MPEG-2 register, and that appending the result gives residue zero; proved by "
-              "GF(2)-linearity of the register step and induction over the bit list, no axioms. The model is tied to /repo by "
-              "running both on all strings of length 0..2, single-bit strings, random strings up to 4 KiB; the real code is also "
-              "compared directly with the extracted specification and with an independent table-driven CRC.")
+              "the textbook bit-serial CRC-32/MPEG-2 register, that appending the result gives residue zero and that no other "
+              "four-byte trailer does, that the table-driven formulation of the specification is the same function, and that every "
+              "single-bit and every burst error up to 32 bits changes the register; proved by GF(2)-linearity of the register step "
+              "and induction over the bit list, no axioms (coqchk in the thorough tier). The model is tied to /repo by running both "
+              "on all strings of length 0..2, one string of every length up to 1024, random strings up to 64 KiB, and EVERY "
+              "single-bit string (up to 64 bytes and selected lengths in quick, up to 1024 bytes in thorough) through a proved "
+              "linear-time table; the real code is also compared directly with the extracted specification (both formulations) "
+              "and with an independent table-driven CRC, and the sections produced by the real emitters (FilterPMTPacketsToPids, "
+              "SCTE35.UpdateData) are put through the receivers' check.")
 LEVEL_NOTE = ("Trusted: Coq kernel; Spec/Crc32.v as the reading of 'CRC-32/MPEG-2'; the transcription Model/Crc.v (checked by "
               "the correspondence); extraction and executor glue; Go uint32 semantics.")
 TECHNIQUE = "Coq proof (GF(2) linearity + induction on bits) + model/implementation correspondence, exhaustive on lengths 0..2"
